@@ -3,8 +3,9 @@
 spec:   spec/SegMatch.tla (one template segment vs one path segment), spec/Router.tla (reference trie,
         incremental tree + generated-program snapshot, add_route acceptance, lookup walk, invariants),
         spec/MC_Router.tla (bounded instances), spec/RouterTrace.tla (trace judge)
-legs:   M  exhaustive TLC check of the router design over all add histories of a small template universe
-           (+ the two wrong-design switches must break it)
+legs:   M  exhaustive TLC check of the router design over all add histories of small template universes (one of them
+           with line feeds in the representatives of multi-field segments, one with user-defined multi-segment
+           converters) (+ the three wrong-design switches must break it)
         A  TLC-generated behaviours replayed on CompiledRouter: every add history of the small universe
            with the COMPLETE lookup table of each state, and -simulate add/find histories of a larger one
         B  random route tables (5..40 templates, fresh names) driven on CompiledRouter beyond the bound,
@@ -30,9 +31,21 @@ META = {
                   'representatives; simulated histories of <= 7 adds / 12 calls over 19 segments; random tables of <= 40 '
                   'templates of depth <= 4 with 200 lookups each beyond.  Trusted: TLC, CPython '
                   'int()/float()/uuid.UUID()/strptime() (the converter table CT is computed with them over every substring '
-                  'of the path segments used), str() of converted values, a second real router as shadow.  Not covered: '
-                  'path segments containing a newline, backslash or braces (regular-expression corner of multi-field '
-                  'segments), float bounds that are not whole numbers, custom converters, responder-suffix/method-map handling of '
+                  'of the path segments used), str() of converted values, a second real router as shadow.  Line feed: a '
+                  'fifth exhaustive universe (5 template segments, 11 representatives with trailing / doubled / leading / '
+                  'embedded line feeds and a carriage return, paths of <= 2 segments) binds the regular-expression reading '
+                  'of multi-field segments (SegMatch!Split: no field takes a line feed, the end is reached before a final '
+                  'line feed; SplitSound + the LFBlind switch as vacuity guard); such representatives are also in the '
+                  'simulated universe and in every random table.  User-defined multi-segment converters: {t:tail} '
+                  '(subclass of PathConverter, vetoes lists of > 2 segments) and {s:segs} (BaseConverter + '
+                  'CONSUME_MULTIPLE_SEGMENTS, vetoes by list membership, value = list length) registered through '
+                  'router_options.converters; CT.multi holds the answers of their own convert() for every LIST of <= 3 '
+                  'segments of the instance (trusted base); a sixth exhaustive universe (7 template segments, 4 '
+                  'representatives), the simulated universe and the random tables use them trailing (hit / veto then '
+                  'another route / veto then miss), followed by a segment and embedded in a segment (must be rejected: '
+                  'P:multiseg-not-last, the rejected add a no-op).  Not covered: path segments containing a backslash or '
+                  'braces, white space other than blank/TAB/LF/CR/FF, float bounds that are not whole numbers, user-defined '
+                  'converters that consume ONE segment or take arguments, responder-suffix/method-map handling of '
                   'add_route, concurrency of the lazy compile (C19).  The action-coverage guard runs on the same state '
                   'graph with one-segment paths because TLC -coverage cannot digest the recursive Lookup operator.',
 }
@@ -104,7 +117,63 @@ def seg_kind(s):
 
 
 def has_path(s):
-    return any(it['t'] == 'fld' and it['c']['k'] == 'path' for it in s['items'])
+    return any(it['t'] == 'fld' and it['c']['k'] in MULTI_ALL for it in s['items'])
+
+
+def is_rest_seg(s):
+    """a single field whose converter consumes the rest of the path"""
+    return seg_kind(s) == 'var' and s['items'][0]['c']['k'] in MULTI_ALL
+
+
+# ---- user-defined converters that consume multiple segments (converter vocabulary of the specification) ----
+# The classes are the TRUSTED BASE for CT.multi (as int()/float() are for CT.int/CT.float): the table holds what
+# their own convert() answers for a LIST of segments.  Both answers depend on list semantics: a joined string
+# has another len(), another membership relation and is joined character by character.
+MULTI = ('tail', 'segs')            # identifiers under which they are registered in router_options.converters
+MULTI_ALL = MULTI + ('path',)
+_CUSTOM = {}
+
+
+def custom_converters():
+    if not _CUSTOM:
+        from falcon.routing.converters import BaseConverter, PathConverter
+
+        class TailConverter(PathConverter):
+            """subclass of the built-in path converter: at most two segments, joined by '|'"""
+            def convert(self, value):
+                if len(value) > 2:
+                    return None
+                return '|'.join(value)
+
+        class SegsConverter(BaseConverter):
+            """derived from BaseConverter only; vetoes a list that has the segment 'q'; value = number of segments"""
+            CONSUME_MULTIPLE_SEGMENTS = True
+
+            def convert(self, value):
+                if 'q' in value:
+                    return None
+                return len(value)
+
+        _CUSTOM.update(tail=TailConverter, segs=SegsConverter)
+    return _CUSTOM
+
+
+def norm_path(segs):
+    """the list of segments the router walks for the path '/' + '/'.join(segs) (leading slashes are stripped)"""
+    return ('/' + '/'.join(segs)).lstrip('/').split('/')
+
+
+def multi_rows(lists):
+    """TRUSTED BASE: {converter: {list written as one string: answer of the real convert(list)}}"""
+    out = {}
+    for name, cls in custom_converters().items():
+        obj, tab = cls(), {}
+        for l in lists:
+            v = obj.convert(list(l))
+            tab['/'.join(l)] = ({'ok': False, 'ty': 'none', 'v': []} if v is None else
+                                {'ok': True, 'ty': TYPES.get(type(v), 'other:' + type(v).__name__), 'v': list(str(v))})
+        out[name] = tab
+    return out
 
 
 class Universe:
@@ -116,6 +185,7 @@ class Universe:
         self.ids = {}
         self.bad = list(bad)
         self.strings = set()          # path segments the converter table must cover
+        self.lists = set()            # lists of remaining segments the multi-segment converter table must cover
         for s in segs:
             self.add(s)
 
@@ -142,12 +212,22 @@ class Universe:
             rows += conv_rows_for(s)
         return rows
 
-    def write(self, path, ps=()):
+    def note_path(self, segs):
+        """a path that will be looked up: every list of remaining segments a multi-segment converter may be handed"""
+        n = norm_path(segs)
+        for i in range(len(n)):
+            self.lists.add(tuple(n[i:]))
+
+    def write(self, path, ps=(), maxlen=0):
+        """maxlen: the instance looks up every path of <= maxlen segments over ps"""
         import json
         for p in ps:
             self.strings.add(p)
+        for n in range(1, maxlen + 1):
+            self.lists.update(itertools.product(ps, repeat=n))
         with open(path, 'w') as f:
-            json.dump({'ts': self.ts, 'ps': [list(p) for p in ps], 'conv': self.conv_rows(), 'bad': self.bad}, f)
+            json.dump({'ts': self.ts, 'ps': [list(p) for p in ps], 'conv': self.conv_rows(), 'bad': self.bad,
+                       'mconv': multi_rows(sorted(self.lists))}, f)
         return path
 
 
@@ -228,7 +308,10 @@ class Res:
 
 def _new_router():
     from falcon.routing import CompiledRouter
-    return CompiledRouter()
+    r = CompiledRouter()
+    for name, cls in custom_converters().items():      # the documented way to add converters
+        r.options.converters[name] = cls
+    return r
 
 
 def _add(router, text, res, c):
@@ -355,8 +438,9 @@ class Replayer:
         else:
             self.ctx.violation(clause, case, what)
 
-    def add(self, pair, tp, r, c, want_ok, case):
-        """returns True if the history can be continued"""
+    def add(self, pair, tp, r, c, want_out, case):
+        """want_out = the outcome of the specification (Router!AddTo); returns True if the history can be continued"""
+        want_ok = want_out == 'ok'
         ev = pair.add(tp, r, c)
         if ev['out'] != ev['sout']:
             self.report('P:reject-noop', pair, case, 'add_route(%r): router under test %s, router fed only the accepted adds %s %s'
@@ -364,6 +448,11 @@ class Replayer:
             return False
         if ev['out'] == 'exc':
             self.report('P:internal-error', pair, case, 'add_route(%r) raised %s' % (self.u.template(tp), ev['x']))
+            return False
+        if ev['out'] == 'ok' and want_out in ('pathNotLast', 'pathInMulti'):
+            self.report('P:multiseg-not-last', pair, case, 'add_route(%r) accepted: a field whose converter consumes multiple '
+                        'segments is followed by, or shares its segment with, something else (specification: %s)'
+                        % (self.u.template(tp), want_out))
             return False
         if (ev['out'] == 'ok') != want_ok:
             self.report('D:accept', pair, case, 'add_route(%r): %s, acceptance rules of the specification say %s'
@@ -414,7 +503,7 @@ def replay_history(rp, u, tables, hist, paths_final, paths_mid, origin):
     ok = True
     for i, (tp, c) in enumerate(hist):
         tab = tables[table_key(acc)]
-        if not rp.add(pair, tp, i + 1, c, tab['outs'][tuple(tp)] == 'ok', case):
+        if not rp.add(pair, tp, i + 1, c, tab['outs'][tuple(tp)], case):
             ok = False
             break
         if tab['outs'][tuple(tp)] == 'ok':
@@ -478,6 +567,27 @@ def levels_universe():
     return Universe(segs), ['a', '7', '3.q']
 
 
+def lf_universe():
+    """Fifth exhaustive universe (paths of <= 2 segments): multi-field segments against representatives with a line
+    feed -- trailing (the pattern's end is reached before it: match, the line feed in no field), doubled, leading,
+    embedded, directly after the last literal chunk (field would be empty) -- and a carriage return (ordinary
+    character); a literal with the same text and a single-field sibling that takes what the patterns refuse."""
+    segs = [seg('u.v'), seg(fld('m'), '.', fld('n')), seg(fld('k', INT), '-', fld('h')),
+            seg('v', fld('a'), '.', fld('b')), seg(fld('y'))]
+    ps = ['u.v', 'u.v\n', 'u\n.v', '\nu.v', 'u.v\n\n', '7-q\n', '7\n-q', 'q-7\n', 'v1.2\n', 'u\r.v', 'u.\n']
+    return Universe(segs), ps
+
+
+def multiseg_universe():
+    """Sixth exhaustive universe: user-defined converters that consume multiple segments -- {t:tail} (subclass of
+    PathConverter: vetoes lists of > 2 segments, joins with '|') and {s:segs} (BaseConverter + flag: vetoes a list
+    that has the segment 'q', value = number of segments) -- next to {p:path}, a plain field and a literal; two
+    segments that embed such a field (rejected when added).  'q.x' is not the segment 'q'; 'u.v' has three characters."""
+    segs = [seg('a'), seg(fld('x')), seg(fld('t', conv('tail'))), seg(fld('s', conv('segs'))),
+            seg(fld('p', conv('path'))), seg(fld('m'), '.', fld('t', conv('tail'))), seg('q', fld('s', conv('segs')))]
+    return Universe(segs), ['a', 'q', 'q.x', 'u.v']
+
+
 def sim_universe():
     """the larger universe of the simulated histories (leg A): converters with arguments, float, a converter
     inside a multi-field segment, three multi-field shapes that can match the same representative"""
@@ -488,9 +598,10 @@ def sim_universe():
             seg(fld('m', INT), '.', fld('x')), seg('v', fld('q')), seg(fld('m'), '.', fld('p', path)),
             seg(fld('g', conv('nope'))), seg(fld('9x')), seg('a b'),
             seg('7.q'), seg(fld('j', INT), '-', fld('h')),
-            seg(fld('n0', conv('int', lo=0))), seg(fld('t0', conv('float', hi=0))), seg(fld('i', INT), ',', fld('j', INT))]
+            seg(fld('n0', conv('int', lo=0))), seg(fld('t0', conv('float', hi=0))), seg(fld('i', INT), ',', fld('j', INT)),
+            seg(fld('t', conv('tail'))), seg(fld('s', conv('segs'))), seg(fld('m'), '.', fld('s', conv('segs')))]
     ps = ['a', 'b', '', 'a.b', '7', '42', '007', ' 7', 'q', 'u.v', '1-2.3', '7.q', '1.5', 'va', 'inf',
-          '7-q', 'q-q', '7.q-q', '-1', '0', '-0.5', '0.5', '10,20']
+          '7-q', 'q-q', '7.q-q', '-1', '0', '-0.5', '0.5', '10,20', 'u.v\n', 'u\n.v', '7-q\n', '7\n']
     return Universe(segs), ps
 
 
@@ -537,7 +648,7 @@ def random_segment(rng, names):
     if t < 0.70:
         return seg(fld(nm(), _weighted(rng, CONVS)))
     if t < 0.78:
-        return seg(fld(nm(), conv('path')))
+        return seg(fld(nm(), conv(rng.choice(('path', 'path', 'tail', 'segs')))))
     if t < 0.97:
         a, b = nm(), nm()
         shape = rng.randrange(10)
@@ -560,7 +671,7 @@ def random_segment(rng, names):
         if shape == 7:
             return seg(fld(a), '+', fld(b, c2))
         if shape == 8:
-            return seg(fld(a), '.', fld(b, conv('path')))
+            return seg(fld(a), '.', fld(b, conv(rng.choice(('path', 'tail', 'segs')))))
         return seg(fld(a, c1), '(', fld(b), ')')
     bad = rng.randrange(3)
     if bad == 0:
@@ -587,6 +698,10 @@ def seg_reps(s, rng):
                 pool = REPS_BY_CONV.get(it['c']['k'], FIELD_FILL)[:4] if it['c']['k'] and rng.random() < 0.7 else FIELD_FILL
                 txt += rng.choice(pool)
         out.append(txt)
+    # line feed (trailing, doubled, leading, embedded) and carriage return in what a multi-field pattern is asked to match
+    base = rng.choice(out)
+    i = rng.randrange(len(base) + 1)
+    out += [base + '\n', rng.choice(['\n' + base, base + '\n\n', base[:i] + '\n' + base[i:], base[:i] + '\r' + base[i:]])]
     return out
 
 
@@ -605,7 +720,38 @@ def scenario(rng, names):
     pre = [seg(rng.choice(['pkg', 'cmp', 'v1', 'a']))] if rng.random() < 0.7 else []
     ptx = [render_seg(x) for x in pre]
     a, b, c, d, e = rng.sample(names, 5)
-    kind = rng.randrange(5)
+    kind = rng.randrange(7)
+    if kind == 5:
+        # user-defined multi-segment converters: one vetoes below a literal, the walk goes back to the literal's
+        # single-field sibling, whose own trailing converter may veto too; two templates that must be rejected
+        c1, c2 = rng.choice([('segs', 'tail'), ('tail', 'segs'), ('segs', 'path'), ('tail', 'path')])
+        tps = [pre + [seg('a'), seg(fld(a, conv(c1)))], pre + [seg(fld(b)), seg(fld(c, conv(c2)))],
+               pre + [seg(fld(d, conv(c1))), seg('x')], pre + [seg(fld(d), '.', fld(e, conv(c1)))]]
+        if rng.random() < 0.5:
+            tps.append(pre + [seg(fld(b)), seg('k'), seg(fld(e)), seg(fld(d))])
+        rng.shuffle(tps)
+        probes = [ptx + x for x in (['a', 'q'], ['a', 'q.x'], ['a', 'u', 'v', 'w'], ['a', 'u', 'q', 'w'], ['a', 'u.v'],
+                                     ['b', 'u', 'v', 'w'], ['b', 'q', 'u'], ['a', 'k', 'v', 'w'], ['b', 'k', 'q', 'w'], ['a', ''])]
+        return tps, probes
+    if kind == 6:
+        # line feeds against multi-field patterns, with a literal of the same text and/or a single-field sibling
+        sp = rng.choice(['.', '-', ':'])
+        cx = seg(fld(a), sp, fld(b)) if rng.random() < 0.6 else seg(fld(a, INT), sp, fld(b))
+        tps = [pre + [cx]]
+        if rng.random() < 0.6:
+            tps.append(pre + [seg('7' + sp + 'v')])
+        if rng.random() < 0.6:
+            tps.append(pre + [seg(fld(c))])
+        if rng.random() < 0.5:
+            tps.append(pre + [seg('v', fld(d), sp, fld(e)), seg('z')])
+        if rng.random() < 0.5:
+            tps.append(pre + [cx, seg(fld(d))])
+        rng.shuffle(tps)
+        t0 = '7' + sp + 'v'
+        probes = [ptx + x for x in ([t0 + '\n'], [t0], ['7\n' + sp + 'v'], ['\n' + t0], [t0 + '\n\n'], ['7' + sp + '\n'],
+                                     ['7' + sp + '\nv'], ['7\r' + sp + 'v'], ['v' + t0 + '\n', 'z'], [t0 + '\n', 'w'],
+                                     ['7' + sp + 'v\r'], ['v7\n' + sp + 'v', 'z'])]
+        return tps, probes
     if kind == 3:
         # literals, a converted single field and multi-field segments with converters at depth 3..4, in any
         # order; every converted field gets its own value
@@ -686,7 +832,7 @@ def random_trace(rng, u, nadds, nfinds, maxdepth=4):
     acc = []                       # accepted templates (ids)
     seg_pool = []                  # segments used so far (ids), reused to make siblings and shared prefixes
     evs, nontrivial = [], False
-    reps = ['', 'zzz', 'q']
+    reps = ['', 'zzz', 'q', 'q.x']
     script, probes = {}, []        # scripted adds (position -> template), probe paths of the scenarios
     if rng.random() < 0.7:
         tps_, probes = scenario(rng, names)
@@ -724,7 +870,7 @@ def random_trace(rng, u, nadds, nfinds, maxdepth=4):
             segs = []
             for sid in tp:
                 s = u.ts[sid - 1]
-                if seg_kind(s) == 'var' and s['items'][0]['c']['k'] == 'path':
+                if is_rest_seg(s):
                     segs += [rng.choice(reps) for _ in range(rng.randint(1, 3))]
                 else:
                     segs.append(rng.choice(seg_reps(s, rng)) if rng.random() < 0.85 else rng.choice(reps))
@@ -742,6 +888,7 @@ def random_trace(rng, u, nadds, nfinds, maxdepth=4):
         return [s for s in segs]
 
     finds_left = nfinds
+    rest_depths = set()
     for i in range(nadds):
         tp = [u.add(x) for x in script[i]] if i in script else new_template()
         for sid in tp:
@@ -754,6 +901,8 @@ def random_trace(rng, u, nadds, nfinds, maxdepth=4):
         evs.append(ev)
         if ev['out'] == 'ok':
             acc.append(tp)
+            if is_rest_seg(u.ts[tp[-1] - 1]) and u.ts[tp[-1] - 1]['items'][0]['c']['k'] in MULTI:
+                rest_depths.add(len(tp) - 1)
         if ev['out'] != ev['sout'] or ev['out'] == 'exc':
             break
         k = min(finds_left, rng.choice((0, 0, 1, 3, 8)) if i < nadds - 1 else finds_left)
@@ -762,6 +911,10 @@ def random_trace(rng, u, nadds, nfinds, maxdepth=4):
             segs = new_path()
             for s in segs:
                 u.strings.add(s)
+            npath = norm_path(segs)      # the lists a user-defined multi-segment converter of this table can be handed
+            for d_ in rest_depths:
+                if len(npath) > d_:
+                    u.lists.add(tuple(npath[d_:]))
             ev = pair.find(segs)
             evs.append(ev)
             if pair.after_reject or siblings_nontrivial(acc, ev['tmpl'] if ev['out'] == 'hit' else []):
@@ -799,6 +952,52 @@ def judge_traces(ctx, u, items, workers):
             ctx.violation(clause, case, what)
 
 
+def lf_witnesses(u, ps, rjson):
+    """what the specification's decision table (TLC output) says about line feeds: lookups by kind"""
+    w = {'hit_multi_field_trailing_lf': 0, 'lf_refused_by_multi_field_taken_by_single_field': 0,
+         'miss_with_lf_below_multi_field': 0, 'hit_multi_field_cr': 0}
+    lfpaths = [p for p in all_paths(ps, 2) if any('\n' in x for x in p)]
+    kind = lambda sid: seg_kind(u.ts[sid - 1])  # noqa
+    for st in rjson:
+        hit_paths = set()
+        acc = [list(a['t']) for a in st['acc']]
+        for h in st['hits']:
+            segs = [''.join(x) for x in h['p']]
+            hit_paths.add(tuple(segs))
+            tm = list(h['tmpl'])
+            for idx, (sid, sg) in enumerate(zip(tm, norm_path(segs))):
+                if kind(sid) == 'cx' and sg.endswith('\n'):
+                    w['hit_multi_field_trailing_lf'] += 1
+                if kind(sid) == 'cx' and '\r' in sg:
+                    w['hit_multi_field_cr'] += 1
+                if kind(sid) == 'var' and '\n' in sg and any(
+                        a[:idx] == tm[:idx] and len(a) > idx and kind(a[idx]) == 'cx' for a in acc):
+                    w['lf_refused_by_multi_field_taken_by_single_field'] += 1
+        if any(kind(a[0]) == 'cx' for a in acc):
+            w['miss_with_lf_below_multi_field'] += sum(1 for p in lfpaths if p not in hit_paths)
+    return w
+
+
+def multiseg_witnesses(u, rjson):
+    """what the specification's decision table says about user-defined multi-segment converters"""
+    w = {'hit_custom_converter': 0, 'veto_then_other_route': 0, 'veto_then_miss': 0, 'rejected_not_last': 0,
+         'rejected_embedded': 0}
+    custom = {i + 1 for i, sg in enumerate(u.ts) if seg_kind(sg) == 'var' and sg['items'][0]['c']['k'] in MULTI}
+    for st in rjson:
+        w['veto_then_other_route'] += st.get('nvetohit', 0)
+        w['veto_then_miss'] += st.get('nveto', 0) - st.get('nvetohit', 0)
+        for h in st['hits']:
+            if h['tmpl'][-1] in custom:
+                w['hit_custom_converter'] += 1
+        for o in st['outs']:
+            if o['out'] == 'pathNotLast' and any(t in custom for t in o['t'][:-1]):
+                w['rejected_not_last'] += 1
+            if o['out'] == 'pathInMulti' and any(has_path(u.ts[t - 1]) and seg_kind(u.ts[t - 1]) == 'cx' and
+                                                 any(it['c']['k'] in MULTI for it in u.ts[t - 1]['items']) for t in o['t']):
+                w['rejected_embedded'] += 1
+    return w
+
+
 def run(ctx):
     import os
     ctx.rule = ('case = one add_route/find history on a fresh CompiledRouter (decision-table histories, simulated '
@@ -807,18 +1006,21 @@ def run(ctx):
                 'hash of the history')
     ctx.trusted_base = ['TLC evaluation of spec/SegMatch.tla + spec/Router.tla',
                         "CPython int()/float()/uuid.UUID()/datetime.strptime() (converter table CT) and str() of values",
+                        "the convert() methods of the check's two user-defined multi-segment converters called with lists (CT.multi)",
                         'a second real CompiledRouter fed only the accepted adds (tells "rejected add was not a no-op" '
                         'from "acceptance rules differ")']
     ctx.assumptions = ['templates/paths are given as segment sequences; text = "/" + "/".join(segments); templates in '
                        'normal form (no leading empty segment: the router strips leading slashes)',
-                       'path segments contain no newline, backslash or braces',
+                       'path segments contain no backslash or braces; line feed and carriage return are among the representatives',
+                       'user-defined converters: the two multi-segment converters of this check (no arguments), registered '
+                       'on every router through router_options.converters',
                        'field names, converter names and white space decide validity as in the code (D-clause)',
                        'resources expose on_get only; suffix/method-map handling of add_route is not exercised']
     W = int(os.environ.get('VERIF_TLC_WORKERS', '0')) or ctx.pick(8, 12)
 
     # ---- leg M: the design, exhaustively --------------------------------------------------------
     u, ps = mc_universe(False)
-    upath = u.write(os.path.join(ctx.scratch, 'mc_universe.json'), ps)
+    upath = u.write(os.path.join(ctx.scratch, 'mc_universe.json'), ps, 3)
     env = {'ROUTER_UNIVERSE': upath}
     acts = ['XAccept', 'XRejectInvalid', 'XRejectConflict', 'XRejectPathNotLast', 'XFind']
     r = ctx.tlc('MC_Router', 'MC_Router.cfg', env=env, workers=W, timeout=1500)
@@ -835,18 +1037,33 @@ def run(ctx):
     ctx.extra['decision_table_states'] = len(tables)
     ctx.progress('leg M: %d states, %d table states' % (r.distinct, len(tables)))
     uo, pso = overlap_universe()
-    uopath = uo.write(os.path.join(ctx.scratch, 'mc_universe_o.json'), pso)
+    uopath = uo.write(os.path.join(ctx.scratch, 'mc_universe_o.json'), pso, 3)
     ro = ctx.tlc('MC_Router', 'MC_Router.cfg', env={'ROUTER_UNIVERSE': uopath}, workers=W, timeout=1500)
     otables = load_tables(ro.json)
     ctx.progress('leg M (nesting/overlap universe): %d states, %d table states' % (ro.distinct, len(otables)))
     small = [(uo, pso, otables)]
+    short_us, depth3_us = [], []
     for mk, cfg, what in ((bounds_universe, 'MC_RouterP2.cfg', 'converter bounds'),
-                          (levels_universe, 'MC_RouterD3.cfg', 'depth 3')):
+                          (levels_universe, 'MC_RouterD3.cfg', 'depth 3'),
+                          (lf_universe, 'MC_RouterP2.cfg', 'line feed'),
+                          (multiseg_universe, 'MC_Router.cfg', 'multi-segment converters')):
         ux, psx = mk()
-        uxpath = ux.write(os.path.join(ctx.scratch, 'mc_universe_%s.json' % cfg[9:11]), psx)
+        uxpath = ux.write(os.path.join(ctx.scratch, 'mc_universe_%s.json' % mk.__name__[:3]), psx, 3)
         rx = ctx.tlc('MC_Router', cfg, env={'ROUTER_UNIVERSE': uxpath}, workers=W, timeout=1500)
         small.append((ux, psx, load_tables(rx.json)))
+        (short_us if cfg == 'MC_RouterP2.cfg' else depth3_us if cfg == 'MC_RouterD3.cfg' else []).append(ux)
         ctx.progress('leg M (%s universe): %d states, %d table states' % (what, rx.distinct, len(small[-1][2])))
+        # vacuity of the two grown dimensions, measured on what TLC printed
+        if mk is lf_universe:
+            w = lf_witnesses(ux, psx, rx.json)
+            ctx.extra['line_feed_table'] = w
+            if not all(w.values()):
+                raise MachineryError('line-feed universe: a kind of lookup is missing from the decision table: %r' % w)
+        if mk is multiseg_universe:
+            w = multiseg_witnesses(ux, rx.json)
+            ctx.extra['multiseg_table'] = w
+            if not all(w.values()):
+                raise MachineryError('multi-segment universe: a kind of entry is missing from the decision table: %r' % w)
     big = None
     if not ctx.quick:
         r3 = ctx.tlc('MC_Router', 'MC_RouterT.cfg', env=env, workers=W, timeout=3000)
@@ -854,7 +1071,7 @@ def run(ctx):
         # the larger universe: two multi-field shapes that match one representative (insertion order
         # decides), a converter inside a multi-field segment
         ut, pst = mc_universe(True)
-        utpath = ut.write(os.path.join(ctx.scratch, 'mc_universe_t.json'), pst)
+        utpath = ut.write(os.path.join(ctx.scratch, 'mc_universe_t.json'), pst, 3)
         r4 = ctx.tlc('MC_Router', 'MC_Router.cfg', env={'ROUTER_UNIVERSE': utpath}, workers=W, timeout=3000)
         big = (ut, pst, load_tables(r4.json))
         ctx.progress('leg M (10 template segments): %d states, %d table states' % (r4.distinct, len(big[2])))
@@ -863,7 +1080,12 @@ def run(ctx):
         rb = ctx.tlc('MC_Router', cfg, env=env, workers=4, timeout=600, must_hold=False, count=False)
         if rb.violated != inv:
             raise MachineryError('vacuous model: %s did not violate %s (got %r)' % (cfg, inv, rb.violated))
-    ctx.extra['wrong_design_switches'] = {'Rollback=FALSE': 'RejectIsNoOp violated', 'ResetOnAdd=FALSE': 'FindIsIdealDFS violated'}
+    rb = ctx.tlc('MC_Router', 'MC_RouterBadLF.cfg', env={'ROUTER_UNIVERSE': os.path.join(ctx.scratch, 'mc_universe_lf_.json')},
+                 workers=2, timeout=600, must_hold=False, count=False)
+    if rb.violated != 'XSplitSound':
+        raise MachineryError('vacuous model: MC_RouterBadLF.cfg did not violate XSplitSound (got %r)' % rb.violated)
+    ctx.extra['wrong_design_switches'] = {'Rollback=FALSE': 'RejectIsNoOp violated', 'ResetOnAdd=FALSE': 'FindIsIdealDFS violated',
+                                          'LFBlind=TRUE (fields take line feeds)': 'XSplitSound violated'}
     ctx.progress('vacuity runs done')
 
     # ---- leg A1: the decision table replayed: every history of <= 2 adds, complete lookup tables ----
@@ -872,7 +1094,7 @@ def run(ctx):
     for uu, pp, tabs in [(u, ps, tables)] + small + ([big] if big else []):
         rp = Replayer(ctx, uu)
         is_small = any(uu is x[0] for x in small)
-        depth3, short = uu is small[2][0], uu is small[1][0]
+        depth3, short = any(uu is x for x in depth3_us), any(uu is x for x in short_us)
         tps = all_templates(uu, 3 if depth3 else 2)
         # compile flags: thorough replays all four combinations per template pair of the two larger universes;
         # quick (and the two smallest universes) draw the flags per history
@@ -902,7 +1124,7 @@ def run(ctx):
 
     # ---- leg A2: simulated add/find histories of a larger universe --------------------------------
     us, pss = sim_universe()
-    uspath = us.write(os.path.join(ctx.scratch, 'sim_universe.json'), pss)
+    uspath = us.write(os.path.join(ctx.scratch, 'sim_universe.json'), pss, 3)
     rs = ctx.tlc('MC_Router', 'MC_RouterSim.cfg', simulate={'num': ctx.pick(40, 1000)}, depth=12, seed=ctx.seed + 1,
                  workers=4, env={'ROUTER_UNIVERSE': uspath}, timeout=1500, count=False)
     behaviours = {digest(b): b for b in rs.json}
@@ -915,7 +1137,7 @@ def run(ctx):
                                                    '/' + '/'.join(''.join(s) for s in e['p']) for e in b['h']]}
         for e in b['h']:
             if e['op'] == 'add':
-                if not rps.add(pair, e['t'], e['r'], e['c'], e['out'] == 'ok', case):
+                if not rps.add(pair, e['t'], e['r'], e['c'], e['out'], case):
                     break
                 if e['out'] == 'ok':
                     acc.append(e['t'])
@@ -950,6 +1172,24 @@ def run(ctx):
             k = '%s:%s' % (e['op'], e['out'])
             stats[k] = stats.get(k, 0) + 1
     ctx.extra['random_table_event_kinds'] = stats
+    custom_last = lambda t: bool(t) and t != [0] and is_rest_seg(ub.ts[t[-1] - 1]) and ub.ts[t[-1] - 1]['items'][0]['c']['k'] in MULTI  # noqa
+    grown = {'finds_with_line_feed': 0, 'hits_multi_field_on_line_feed_segment': 0, 'hits_on_user_defined_multiseg': 0,
+             'rejected_adds_with_user_defined_multiseg': 0}
+    for evs, _ in items:
+        for e in evs:
+            if e['op'] == 'find':
+                lf = [i for i, sg in enumerate(norm_path([''.join(x) for x in e['p']])) if '\n' in sg]
+                grown['finds_with_line_feed'] += bool(lf)
+                if e['out'] == 'hit' and e['tmpl'] != [0]:
+                    grown['hits_multi_field_on_line_feed_segment'] += any(
+                        i < len(e['tmpl']) and seg_kind(ub.ts[e['tmpl'][i] - 1]) == 'cx' for i in lf)
+                    grown['hits_on_user_defined_multiseg'] += custom_last(e['tmpl'])
+            elif e['out'] == 'rej':
+                grown['rejected_adds_with_user_defined_multiseg'] += any(
+                    it['c']['k'] in MULTI for sid in e['t'] for it in ub.ts[sid - 1]['items'])
+    ctx.extra['random_tables_grown_dimensions'] = grown
+    if not all(grown.values()):
+        raise MachineryError('leg B did not reach a grown dimension: %r' % grown)
     ctx.extra['random_table_events'] = nev
     ctx.progress('leg B judged')
 
@@ -968,6 +1208,7 @@ def replay(ctx, case):
         else:
             for s in op[1]:
                 u.strings.add(s)
+            u.note_path(op[1])
             evs.append(pair.find(op[1]))
         print(op[:2], '->', {k: evs[-1][k] for k in ('out', 'res', 'params', 'sout', 'x')})
     judge_traces(ctx, u, [(evs, {'origin': 'replay'})], 1)
